@@ -29,17 +29,14 @@ where
                     // The existing working-set item is still in the working set -- no change.
                     new_ws.push(Some(*uuid));
                     seen.insert(*uuid);
-                } else {
-                    // The item should not be present. If we are not renumbering, then insert a
-                    // blank working-set item here
-                    if !renumber {
-                        new_ws.push(None);
-                    }
+                    continue;
                 }
-                continue;
             }
-        } else {
-            // This item was already None.
+        }
+        // This item was already None, or its task no longer exists or should not be present.
+        // If we are not renumbering, then insert a blank working-set item here so that the
+        // following items keep their numbers; when renumbering, the gap is closed.
+        if !renumber {
             new_ws.push(None);
         }
     }
